@@ -254,6 +254,14 @@ func (h *HttpServer) handleUnary(w http.ResponseWriter, r *http.Request) {
 			h.logIPCWriteErr("void-response", info.Name, err)
 			handlerErr = err
 		}
+		// A void response still carries the handler's logs: the wire cap is as
+		// hard for it as for a valued one.
+		if capErr := enforceResponseBudgets(info.Name, int64(buf.Len()), 0,
+			h.maxResponseBytes, h.maxExternalizedResponseBytes); capErr != nil {
+			handlerErr = capErr
+			h.writeUnaryCapError(w, info, req.RequestID, nil, capErr)
+			return
+		}
 		h.writeArrow(w, http.StatusOK, buf.Bytes())
 		return
 	}
